@@ -79,9 +79,9 @@ class NotVerbatim(Exception):
 
 
 def nsel(q):
-    """number of select items (a set operation answers every unknown attribute with a Field: look in its dict)"""
-    sel = q.__dict__.get("_selects")
-    return len(sel) if sel else 1
+    """number of select items of an inner query: counted from the calls that built it (no look at private attributes)"""
+    hist = q.__dict__.get("_c10_hist") or []
+    return sum(len(c["terms"]) for c in hist if c["m"] == "select") or 1
 
 
 def find(hay, needle):
